@@ -90,6 +90,14 @@ CLAIMED = {
         "Trusted: the reference unit propagation (expr.propagate) used to certify that an edit makes the call unsatisfiable; the L1 layer never claims ill-formedness.",
         "DESIGN.md §4 C03",
     ),
+    "C02": (
+        "differential property-based testing of solve_axes / solve_shapes / matches against an independent exhaustive reference solver (Hypothesis)",
+        "Generated-input search over expression lists, known/unknown shapes and keyword variants (minimal, under-determined, redundant, contradicted, non-divisible, "
+        "changed dimension, scalar/tuple ellipsis sizes, values crossing 2**31); the reference enumerates the complete solution set, which decides soundness (unique, existing, "
+        "exact), mandatory rejection (empty / ambiguous) and mandatory success (unit propagation). Exploration only.",
+        "Trusted: einxverif/refsolve.py and expr.propagate (plain Python integer arithmetic). Depth-1 ellipses only; enumeration is skipped (and counted) beyond 2e5 candidates.",
+        "DESIGN.md §4 C02, §3 S3",
+    ),
 }
 NOT_YET = "check not built yet in this round (see DESIGN.md §8 build order); the property has an executable oracle and will be claimed once its check is registered"
 
